@@ -150,6 +150,10 @@ class Runtime:
             return [elt(x) for x in it]
         return [elt(x) for x in it if cond(x)]
 
+    def listcomp_star(self, it, elt, cond):
+        """T6 with a tuple target: elt / cond take the unpacked element"""
+        return self.listcomp(it, lambda x: elt(*x), None if cond is None else (lambda x: cond(*x)))
+
     # T3
     def super_(self, obj):
         f = getattr(obj, '_vc_super', None)
